@@ -54,6 +54,13 @@ def family(name, n):
         return [], b'\x40\x01a\x01b' * n, {'limit': big}
     if name == 'plain-literals':
         return [], b'\x00\x01a\x01b' * n, {'limit': big}
+    # pairwise DIFFERENT fields (anything that compares a field with the ones before it: duplicate checks, merging, sorting)
+    if name == 'distinct-plain-literals':
+        return [], b''.join(b'\x00\x03' + bytes([97 + i % 26, 97 + (i // 26) % 26, 97 + (i // 676) % 26]) + b'\x00' for i in range(n // 6 + 1)), {'limit': big}
+    if name == 'distinct-values':
+        return [], b''.join(b'\x0f\x00\x03' + bytes([97 + i % 26, 97 + (i // 26) % 26, 97 + (i // 676) % 26]) for i in range(n // 6 + 1)), {'limit': big}
+    if name == 'distinct-inserted-literals':
+        return [], b''.join(b'\x40\x03' + bytes([97 + i % 26, 97 + (i // 26) % 26, 97 + (i // 676) % 26]) + b'\x01v' for i in range(n // 7 + 1)), {'limit': big}
     if name == 'never-literals-idxname':
         return [], b'\x1f\x00\x01b' * n, {'limit': big}
     if name == 'size-updates':
@@ -152,7 +159,7 @@ FAMILIES = ['index-run', 'index-run-zero', 'namelen-run', 'valuelen-run', 'updat
             'value-inner-blanks', 'value-inner-tabs', 'value-leading-blanks', 'value-tokens', 'value-inner-nuls', 'value-inner-digits',
             'value-inner-upper', 'value-crlf', 'value-colons', 'huffman-value-inner-blanks', 'name-value-inner-blanks', 'name-value-inner-upper',
             'text-value-inner-blanks', 'text-value-nonascii', 'text-value-tokens', 'text-plain-literals', 'text-indexed-fields', 'text-huffman-literals',
-            'text-name-value-inner-upper', 'size-updates-padded', 'literals-padded-name-index', 'indexed-padded', 'string-lengths-padded']
+            'text-name-value-inner-upper', 'distinct-plain-literals', 'distinct-values', 'distinct-inserted-literals', 'text-distinct-plain-literals', 'size-updates-padded', 'literals-padded-name-index', 'indexed-padded', 'string-lengths-padded']
 TINY = ['declared-plain-value', 'declared-plain-name', 'declared-huffman-value', 'declared-huffman-name', 'declared-index', 'declared-table-size']
 
 
